@@ -74,6 +74,13 @@ func genC07Random(g *Gen) any {
 	case 1:
 		sc.Client.SkewMS = int64(g.Int(-400000, 400000))
 		sc.Mod = "none"
+		if g.Bool(0.3) {
+			// a client clock centuries away: beyond what a time.Duration can express
+			// (292 years), at the ends of the 64-bit range, at and before the epoch
+			const now = 946684800 // the bubble's clock starts at 2000-01-01
+			sc.Client.AbsTimeS = []int64{now + 10000000000, now - 10000000000, 1 << 40, 1 << 62, 1<<63 - 1, -(1 << 62), -1 << 63, 1, -1,
+				now + 9223372037, now + 9223372036, now - 9223372037}[g.Rng.IntN(12)]
+		}
 	case 2:
 		sc.Mod = "edit"
 		sc.N = g.Int(1, 6)
@@ -127,6 +134,9 @@ func runC07(c *Ctx, scAny any) {
 	}
 	clientNow := time.Now().Add(time.Duration(sc.Client.SkewMS) * time.Millisecond)
 	ts := clientNow.Unix()
+	if sc.Client.AbsTimeS != 0 {
+		ts = sc.Client.AbsTimeS
+	}
 	// which bytes carry the authentication payload?
 	var auth authRanges
 	if sc.WS {
@@ -254,6 +264,9 @@ func genC07Authz(g *Gen) any {
 			usr.ExpiryS = int64(g.Pick(-1, -3600, -86400))
 		case 4:
 			usr.ExpiryS = int64(g.Pick(5, 30, 50))
+		}
+		if usr.Pinned && usr.UpCredit > 0 && usr.DownCredit > 0 && usr.ExpiryS > 1000 && g.Bool(0.3) {
+			usr.AdminZero = g.Int(1, 2) // authorised when it logged in, not any more
 		}
 		sc.Users = append(sc.Users, usr)
 	}
